@@ -8,6 +8,7 @@ the proof-side `OptProof.optimizeCheck` by `optimizeCheck_light'`):
 -/
 import Hpbf.Driver9
 import Hpbf.OptCheck
+import Hpbf.OptFix
 
 namespace Hpbf
 namespace Driver10
@@ -28,6 +29,21 @@ def handle (line : String) : String :=
             else if r == "check=false" then "check-false"
             else if r.startsWith "optimize-error" then "opt-error " ++ (r.drop 15).toString
             else r)).getD "bad-request"
+  | ["optrun", ws, ls, hex, ords] =>
+    -- the optimizer as it is in /repo now: `Opt.optimizeOnce` followed by the recomputation of the recorded
+    -- `clobbered` sets (fix of F13) = `OptFix.optimizeF`
+    (do
+      let w ← ws.toNat?
+      let level ← ls.toNat?
+      let bs ← Driver.decodeHex hex
+      let ks ← Driver.kindsOfUtf8 bs
+      let orders ← Driver9.parseOrders ords
+      some (match Ir.parse (w := w) ks with
+        | .error _ => "parse-error"
+        | .ok b =>
+          match OptFix.optimizeF b level orders with
+          | .ok b' => Driver.encodeBlock b'
+          | .error e => if e.startsWith "panic:" then "panic" else e)).getD "bad-request"
   | _ => Driver9.handle line
 
 end Driver10
